@@ -284,7 +284,8 @@ func (o *coreOracle) checkExposure(s *Sim, w *Write) {
 			"BatchRelease controller raised exposure of %s to %d pods (was %d) but batchPartition=%d allows %d of %d (+%d slack); batches=%s",
 			w.Key, eAfter, eBefore, *plan.BatchPartition, planned(plan.Batches[b].CanaryReplicas, n), n, slack(n), dumpJSON(plan.Batches))
 	}
-	if claimed && br.Status.Phase == v1beta1.RolloutPhaseProgressing && eAfter < eBefore {
+	// (a plan edit by the user that lowers the running step is a user cause)
+	if claimed && br.Status.Phase == v1beta1.RolloutPhaseProgressing && eAfter < eBefore && !strings.Contains(s.firedEvents(), "edit-plan") {
 		s.Violate("C01", "E2-monotone", fmt.Sprintf("E2/%s/%s", o.sc.Family, w.Key.GK.Kind), w.Seq,
 			"BatchRelease controller moved %s back toward the old revision while progressing: exposure %d -> %d", w.Key, eBefore, eAfter)
 	}
